@@ -67,6 +67,9 @@ pub enum Op {
     ChildResources { inst: usize, parent: String, child: String, res: Res },
     ChildRemove { inst: usize, parent: String, child: String },
     ChildSuspend { inst: usize, parent: String, child: String, suspend: bool },
+    /// The parent tells the child another name for (one of) its resource
+    /// classes (issue 1133: imported delegated children).
+    ChildMapClass { inst: usize, parent: String, child: String, name: String },
     Roa { inst: usize, ca: String, add: Vec<RoaSpec>, remove: Vec<RoaSpec> },
     Aspa {
         inst: usize, ca: String,
@@ -112,6 +115,7 @@ impl Op {
             Op::ChildResources { .. } => "child_resources",
             Op::ChildRemove { .. } => "child_remove",
             Op::ChildSuspend { .. } => "child_suspend",
+            Op::ChildMapClass { .. } => "child_map_class",
             Op::Roa { .. } => "roa",
             Op::Aspa { .. } => "aspa",
             Op::AspaProviders { .. } => "aspa_providers",
@@ -162,6 +166,9 @@ pub struct GenCfg {
     pub w_rrdp: u64,
     /// Weight of publisher removal at the server (C19).
     pub w_status: u64,
+    /// Share (in 1/100 of the entitlement operations) of class name
+    /// mappings.
+    pub w_class_map: u64,
     pub pump_pct: u64,
 }
 
@@ -187,6 +194,7 @@ impl Default for GenCfg {
             w_clock: 8,
             w_rrdp: 0,
             w_status: 0,
+            w_class_map: 0,
             pump_pct: 55,
         }
     }
@@ -409,6 +417,22 @@ pub fn generate(rng: &mut Rng, ctx: &GenCtx) -> Op {
                     res: cur.union(&random_res(rng, &held, true)),
                 },
                 _ => Op::ChildSuspend { inst, parent, child, suspend: false },
+            }
+        }
+        if cfg.w_class_map > 0 {
+            // Only possible while the child has not received a certificate
+            // from this parent: right after it was added.
+            let fresh: Vec<(usize, String, String)> = pairs.iter()
+                .filter(|(_, _, child)| {
+                    ctx.views.iter().any(|(key, view)| {
+                        key.ends_with(&format!("/{child}"))
+                            && view.held.is_empty()
+                    })
+                }).cloned().collect();
+            if !fresh.is_empty() && rng.below(100) < cfg.w_class_map * 4 {
+                let (inst, parent, child) = rng.pick(&fresh).clone();
+                let name = format!("m{}", rng.below(3));
+                return Op::ChildMapClass { inst, parent, child, name }
             }
         }
         if let Some((inst, parent, child)) = rng.pick_opt(&pairs).cloned() {
